@@ -30,37 +30,66 @@ MANIFEST = {
             "initial + all backward gradients at every moment (nothing dropped or doubled); the run is a fold of window steps; "
             "additional models in self.models receive the mean as well (gradient space G x H); trailing iterations after the "
             "last complete window stay pending; OOM recovery and the scaler update are part of the machine. "
-            "Tied to the code by the translated statement table + guards + divided/clipped parameter scope (bridge by "
+            "Between iterations: a second machine (C16E.history) runs whole processes of Engine.train — first-example logging, "
+            "start_with_validation, validation rounds, periodic checkpoints, log writes, the SIGINT kill path, clean stops, "
+            "resume with the translated start_iter arithmetic — interpreting a translated table of every statement in the "
+            "call closure of validation_loop / evaluate / reconstruct_volumes / checkpoint_model_at_interval / "
+            "Checkpointer.save / write_to_logs / checkpoint_and_write_to_logs / log_first_training_example_and_model and the "
+            "prologue of Engine.train that touches .grad, the optimiser, the scheduler or the scaler; for every table satisfying "
+            "the decided predicate 'none but the prologue's zero_grad' these events are the identity on the trainer state, a "
+            "process equals the plain run for every validation_steps / checkpoint_steps / start_with_validation, the window-mean "
+            "theorem holds with events inside the window, across every history of kills / stops / resumes (also inside windows) "
+            "iteration t runs with last_epoch = t and the scheduler advances exactly num_iterations times, and histories that "
+            "only resume at window boundaries reproduce the uninterrupted run. Mixed precision: the translated GradScaler "
+            "protocol of the step branch (div_, unscale_ before clip, scaler.step, scaler.update) delivers the unscaled "
+            "(clipped) mean for every scale S != 0. "
+            "Tied to the code by the translated statement table + guards + divided/clipped parameter scope, the between-table, "
+            "the loop's call order, start_iter and validate_model_at_interval kernels, the scaler table (bridges by "
             "decide/omega), a translated table of how each of the 24 engine classes back-propagates its loss (decided "
-            "wfEngines), exact differential runs of the REAL Engine.train on a toy problem (incl. an additional model and "
-            "OOM skips) and bit-exact accumulation checks through real Unet2d / RIM / EndToEndVarNet engines.",
+            "wfEngines), exact differential runs of the REAL Engine.train on a toy problem (incl. an additional model, OOM skips "
+            "and random histories of validation / checkpoint / kill / stop+resume with k in 1..4 and validation_steps, "
+            "checkpoint_steps that are not multiples of k; the driver interprets the *translated* between-table), runs with an "
+            "ENABLED GradScaler on CPU, and bit-exact accumulation checks through real Unet2d / RIM (steps 1 and 2) / "
+            "EndToEndVarNet / VSharpNet / Unet2dSSL engines and a Unet2d engine with a sensitivity_model in self.models.",
     "note": "Resume inside an accumulation window is a finding (key resume-mid-window): checkpoints do not store gradients, the "
             "first step after such a resume uses (1/k) * sum of only the post-resume batches (theorem "
-            "resume_mid_window_first_step, witness resume_mid_window_violates); resume at a window boundary is proved equal. "
-            "Trusted: Lean kernel, AST translator, torch autograd/optimiser arithmetic (exact on the dyadic probe set; Adam "
-            "and clipping only checked on the implementation under 1e-9), GradScaler disabled (CPU).",
-    "technique": "Lean 4 proof (induction over iterations/windows, interpreter of a translated statement table) + AST "
-                 "translation bridge + exact differential correspondence on the real training loop",
+            "resume_mid_window_first_step, witness resume_mid_window_violates); every other deviation after such a resume "
+            "(schedule, iteration counter, parameters not explained by the lost gradients alone) is reported under its own key. "
+            "Trusted: Lean kernel, AST translators, torch autograd/optimiser arithmetic (exact on the dyadic probe set; Adam "
+            "and clipping only checked on the implementation under 1e-9), GradScaler semantics as modelled (unscale = multiply "
+            "by 1/S; inf/nan step skipping outside the model), float16 autocast numerics not covered (CPU, float64 toy).",
+    "technique": "Lean 4 proof (induction over iterations/windows/process histories, interpreters of translated statement "
+                 "tables) + AST translation bridges + exact differential correspondence on the real training loop",
 }
 TRUSTED = [
     "Lean 4.33 kernel; axioms ⊆ {propext, Classical.choice, Quot.sound}",
-    "harness/translate/recipes/c16.py (statement table and guards of Engine.training_loop)",
+    "harness/translate/recipes/c16.py (statement table and guards of Engine.training_loop) and c16_events.py (call closure of "
+    "the between-iteration call sites, touch classification, start_iter / validation guard kernels, scaler table)",
     "torch autograd / SGD arithmetic is exact on integer data with dyadic learning rates in float64 (checked against an "
     "independent Fraction reference on every run)",
-    "optimizer.step as an arbitrary function of (lr, params, optimiser state, .grad); GradScaler disabled on CPU",
-    "the toy engine subclass (forward_function, loss plug-in, deterministic batch order by iteration index) and the "
-    "torchvision/tensorboard stubs of harness/boot.py",
+    "optimizer.step as an arbitrary function of (lr, params, optimiser state, .grad); GradScaler: disabled (identity) or "
+    "enabled with power-of-two scales (exact on the probe set)",
+    "the toy engine subclasses (forward_function, loss plug-in, deterministic batch order by iteration index, recording of "
+    "iteration index / lr in effect / bookkeeping events, SIGINT self-delivery) and the torchvision/tensorboard stubs of "
+    "harness/boot.py; gc.collect() of reconstruct_volumes replaced by a no-op during validation rounds",
 ]
 ASSUMPTIONS = [
     "batches are a function of the iteration index (the harness replaces the random batch sampler by a sequential one)",
     "Adam and gradient clipping are compared with an independently computed reference under 1e-9 (float64), not exactly",
-    "mixed precision (GradScaler enabled) is out of scope",
+    "mixed precision: the scaler protocol is proved over Q-modules and run with an enabled CPU GradScaler in float64; "
+    "float16 autocast rounding and inf/nan-triggered step skipping are out of scope",
+    "between-iteration touches are recognised syntactically (zero_grad / step / update / backward / load_state_dict / "
+    "assignments to .grad, param_groups, last_epoch / in-place methods on .grad) in the self.* call closure of the call "
+    "sites; effects through other objects are covered by the differential histories only",
 ]
 RULE = ("toy linear model with L1 sum loss (integer-valued gradients), k in 1..4, 1..12 iterations (not only multiples of k), "
         "batch sizes 1..4, SGD with momentum 0 or 1/2, WarmupMultiStepLR with dyadic parameters, with/without an additional "
-        "model, with/without OOM-skipped iterations; real Unet2d / RIM / EndToEndVarNet engines on 8x8 two-coil data, k in 1..4, "
-        "SGD/Adam; non-trivial = k >= 2 and at least one completed window; "
-        "distinct = distinct protocol line / oracle configuration")
+        "model, with/without OOM-skipped iterations; histories of 1..3 processes over 9..14 iterations with validation data, "
+        "validation_steps and checkpoint_steps in {2,3,4,5,7} that are not multiples of k, start_with_validation, SIGINT kill "
+        "before/after backward, clean stop + resume (also inside windows); enabled GradScaler with scales 2..64 and growth "
+        "interval 1..3, with/without clipping; real Unet2d / RIM (steps 1, 2) / EndToEndVarNet / VSharpNet / Unet2dSSL / "
+        "Unet2d+sensitivity_model engines on 8x8 two-coil data, k in 1..4, SGD/Adam; non-trivial = k >= 2 and at least one "
+        "completed window; distinct = distinct protocol line / oracle configuration")
 EXTRA_LEAN_MODULES = ["DirectVerif.Lemmas.C16Events"]
 PENDING_FINDINGS: list[str] = []     # `resume-mid-window` is listed as known; `additional-models-not-divided` was repaired
 
@@ -789,6 +818,11 @@ OBSERVATIONS = [
     "and dropped; theorem trailing_iterations_pending)",
     "RIMEngine._do_iteration calls backward after its `for _ in range(cfg.model.steps)` loop: with model.steps > 1 only "
     "the last step's loss is back-propagated (engine table: inLoop = false, retainGraph = true)",
+    "a validation round, a periodic checkpoint or a log write inside an accumulation window leaves the pending gradients "
+    "alone (translated between-table is empty but for the prologue's zero_grad; checked on every run with validation_steps / "
+    "checkpoint_steps that are not multiples of gradient_steps)",
+    "the SIGINT kill path inside a window (`save(iter_idx - 1)`) loses the window's pending gradients exactly like a clean "
+    "stop there (known finding resume-mid-window); the schedule and the iteration counter stay in step (lr_in_step_across_resume)",
 ]
 
 
